@@ -15,6 +15,7 @@ import (
 	"runtime"
 	"strings"
 	"sync"
+	"sync/atomic"
 	"syscall"
 	"time"
 
@@ -45,7 +46,7 @@ type Scn struct {
 // NeedsChild: sessions that end with a signal or an injected panic.
 func (s *Scn) NeedsChild() bool {
 	for _, st := range s.Steps {
-		if st == "kill" || st == "panic" || st == "panic3" || st == "kill3" {
+		if st == "kill" || st == "panic" || st == "panic3" || st == "kill3" || st == "killrender" || st == "killclose" {
 			return true
 		}
 	}
@@ -102,9 +103,22 @@ func Execute(sc *Scn) *Result {
 	sess.ScrubEnv()
 	con := fakecon.New(20, 5)
 	resp := responder.New(caps, 20, 5, con.Inject)
+	var blockNext atomic.Bool // the next console write stalls (a slow terminal) until writeGate opens
+	writeGate := make(chan struct{})
+	writeHit := make(chan struct{}, 1)
+	var slowTerm atomic.Bool // the terminal takes 100 ms to answer
 	con.OnWrite = func(p []byte) {
 		l.line("W " + hex.EncodeToString(p))
-		resp.OnWrite(p)
+		if slowTerm.Load() {
+			q := append([]byte(nil), p...)
+			go func() { time.Sleep(100 * time.Millisecond); resp.OnWrite(q) }()
+		} else {
+			resp.OnWrite(p)
+		}
+		if blockNext.CompareAndSwap(true, false) {
+			writeHit <- struct{}{}
+			<-writeGate
+		}
 	}
 	vx, err := vaxis.New(vaxis.Options{WithConsole: con, NoSignals: !sc.NeedsChild(),
 		DisableMouse: sc.DisableMouse, DisableKittyKeyboard: sc.DisableKitty})
@@ -116,10 +130,17 @@ func Execute(sc *Scn) *Result {
 	l.line("M ready")
 	// drain events so the input goroutine never blocks on a full queue
 	stopDrain := make(chan struct{})
+	quitSeen := make(chan struct{}, 1)
 	go func() {
 		for {
 			select {
-			case <-vx.Events():
+			case ev := <-vx.Events():
+				if _, ok := ev.(vaxis.QuitEvent); ok {
+					select {
+					case quitSeen <- struct{}{}:
+					default:
+					}
+				}
 			case <-stopDrain:
 				return
 			}
@@ -190,6 +211,53 @@ func Execute(sc *Scn) *Result {
 			} else {
 				l.line("M hang:kill")
 				res.Note = "hang after kill signal"
+			}
+		case "killclose":
+			// the usual application shape: its event loop leaves on QuitEvent and calls Close itself,
+			// here after a termination signal started the library's own Close. "closed" is marked when
+			// the APPLICATION's Close returns: the terminal must be restored by then
+			l.line("M kill")
+			slowTerm.Store(true)
+			syscall.Kill(os.Getpid(), syscall.SIGTERM)
+			select {
+			case <-quitSeen:
+			case <-time.After(5 * time.Second):
+			}
+			if !call("Close", vx.Close) {
+				res.Log = l.sb.String()
+				return res
+			}
+			l.line("M closed")
+			time.Sleep(300 * time.Millisecond) // whatever is written after this point came too late
+		case "killrender":
+			// a termination signal while the application goroutine is inside Render, its console
+			// write stalled by a slow terminal: the signal path's Close runs beside it
+			l.line("M kill")
+			frames++
+			vx.Window().SetCell(frames%5, 2, vaxis.Cell{Character: vaxis.Character{Grapheme: "k", Width: 1}})
+			blockNext.Store(true)
+			renderDone := make(chan struct{})
+			go func() { vx.Render(); close(renderDone) }()
+			select {
+			case <-writeHit:
+			case <-time.After(2 * time.Second):
+			}
+			syscall.Kill(os.Getpid(), syscall.SIGTERM)
+			time.Sleep(150 * time.Millisecond)
+			close(writeGate)
+			select {
+			case <-renderDone:
+			case <-time.After(5 * time.Second):
+			}
+			deadline := time.Now().Add(5 * time.Second)
+			for !con.Closed() && time.Now().Before(deadline) {
+				time.Sleep(time.Millisecond)
+			}
+			if con.Closed() {
+				l.line("M closed")
+			} else {
+				l.line("M hang:kill")
+				res.Note = "hang after kill signal during Render"
 			}
 		case "kill3":
 			// a termination signal while input is pouring in: hold the input
@@ -344,6 +412,9 @@ var CrashTemplates = [][]string{
 	{"frame", "suspend", "resume", "frame", "panic"},
 	{"frame", "panic3"},
 	{"frame", "kill3"},
+	{"frame", "killrender"},
+	{"frame", "killclose"},
+	{"frame", "suspend", "resume", "frame", "killrender"},
 }
 
 // MaskOf expands a 10-bit configuration number: 8 capability bits + 2 options.
